@@ -72,7 +72,7 @@ def _shards(tier):
     second = [{"n": 12, "second_error": "Unpause"}]
     if tier == "quick":
         return [{"n": 4, "cmds": [a, b]} for a in CMDS for b in CMDS] + [{"n": 5, "cmds": ["none", "none", a], "error": True} for a in CMDS] + second
-    return [{"n": 5, "cmds": [a, b]} for a in CMDS for b in CMDS] + [{"n": 7, "cmds": ["none", "none", a], "error": True} for a in CMDS] + second
+    return [{"n": 5, "cmds": [a, b]} for a in CMDS for b in CMDS] + [{"n": 6, "cmds": ["none", "none", a, b], "error": True} for a in CMDS for b in CMDS] + second
 
 
 OBLIGATIONS = [Obligation(
